@@ -66,7 +66,7 @@ PROPS = {
              generated_lemmas=["GroupLoopInst.grouploop_ok"],
              trusted_extra=["tools/build.py extract_grouploop: regular expressions over poll_next of FuturesUnordered / MergeUnbounded listing the statements of the group loop in textual order (every write to the cursor and to the counter and every way out of the loop is classified); fu_loop / fu_poll_next of Unbounded.v are my rendering of that skeleton (syntactic tie only)"]),
     "C14": P([], "C14", "C14", "sleepy,default,stale,budget,groups,reuse", ALL, (1500, 40000), known_monitor="K14"),
-    "C15": P([], "C15", "C15", "limits,default,order,budget,groups,reuse,deque,cycles,huge", COLL, (2000, 50000)),
+    "C15": P([], "C15", "C15", "limits,default,order,budget,groups,reuse,deque,cycles,huge", COLL, (2000, 20000)),
     "C16": P([], "C16", "C16", "default,limits,sleepy,budget,groups,reuse", "BO,TBO", (2000, 40000)),
     "C17": P([], "C17", "C17", "default,limits,sleepy,drops,budget,groups,reuse", "FUB,FU,MB,MU,FOB,FO,BU,BO,TBU,TBO", (2000, 50000)),
     "C18": P([], "C18", "C18", "big,default,stale,budget,groups,reuse,cycles,huge", ALL, (1200, 20000), min_events=1),
